@@ -117,14 +117,16 @@ class Schema2DF(Schema2Base):
         elif df_key == HedSectionKey.Attributes:
             return self._write_attribute_entry(entry, include_props=include_props)
         df = self.output[df_key]
-        tag_id = entry.attributes.get(HedKey.HedID, "")
+        # Without its properties an entry is a stub that only names the entry (a unit class of the standard
+        # schema that holds units of the library, in an unmerged save), as in the other formats.
+        tag_id = entry.attributes.get(HedKey.HedID, "") if include_props else ""
         new_row = {
             constants.hed_id: f"{tag_id}",
             constants.name: entry.name,
             constants.subclass_of: self._get_subclass_of(entry),
-            constants.attributes: self._format_tag_attributes(entry.attributes),
-            constants.description: entry.description,
-            constants.equivalent_to: self._get_tag_equivalent_to(entry),
+            constants.attributes: self._format_tag_attributes(entry.attributes) if include_props else "",
+            constants.description: entry.description if include_props else "",
+            constants.equivalent_to: self._get_tag_equivalent_to(entry) if include_props else "",
         }
         # Handle the special case of units, which have the extra unit class
         if hasattr(entry, "unit_class_entry"):
